@@ -295,8 +295,7 @@ class C20(PropBase):
                 "parsed flag record (c20_argv_outcomes); every value the regenerated --features parser lets through has an arm in the "
                 "regenerated match, so unimplemented!() is unreachable, and LevelFilter::from_str(..).unwrap() never fails "
                 "(c20_features_value_never_unimplemented, c20_verbose_value_never_unwraps; with ignore_case the statement no longer "
-                "holds: c20_ignore_case_reaches_default_arm); never by panic from any argument vector (c20_argv_never_panics; 101 only "
-                "through --help-markdown's expect); parsed values went through their value parser, a flag / single-valued option "
+                "holds: c20_ignore_case_reaches_default_arm); never by panic from any argument vector (c20_argv_never_panics, unconditional since the fix of F-C20e); parsed values went through their value parser, a flag / single-valued option "
                 "given twice is a usage error (c20_parsed_values_validated, c20_single_options_at_most_once); the manual's item-by-item "
                 "reading of a command line (--flag, --name=value, --name value, positional word; any order and mix of forms) is exactly "
                 "what the tokenizer computes (c20_manual_reading_is_parsed, c20_eq_form_same_as_space_form, "
